@@ -83,7 +83,11 @@ func (cache *httpCache) write(w io.WriteCloser, target *core.BuildTarget, files 
 			return storeFile(tw, name)
 		}); err != nil {
 			log.Warning("Error uploading artifacts to HTTP cache: %s", err)
-			// TODO(peterebden): How can we cancel the request at this point?
+			// Abort the upload: a well-formed archive that lacks some of the files must never be stored.
+			if pw, ok := w.(*io.PipeWriter); ok {
+				pw.CloseWithError(err)
+			}
+			return
 		}
 	}
 }
